@@ -353,6 +353,48 @@ func catalogPods() []PodCase {
 			out = append(out, PodCase{Pod: p, Base: "catalog", Atoms: []string{"cross." + a.name, "cross." + b.name}, FewMinors: true})
 		}
 	}
+	// wide pods: 16 to 40 containers spread over the three kinds, with two to four controls violated on some of them — the
+	// listing of controls must not depend on how many containers a pod has
+	for _, width := range []int{16, 17, 24, 40} {
+		for variant := 0; variant < 3; variant++ {
+			width, variant := width, variant
+			add(fmt.Sprintf("wide.%d", width), func(p *corev1.Pod) {
+				mk := func(n string, bad int) corev1.Container {
+					c := corev1.Container{Name: n, Image: "img", SecurityContext: compliantSC()}
+					switch bad {
+					case 1:
+						c.SecurityContext.Privileged = bp(true)
+					case 2:
+						c.SecurityContext.Capabilities.Add = []corev1.Capability{"SYS_ADMIN"}
+					case 3:
+						c.Ports = []corev1.ContainerPort{{ContainerPort: 80, HostPort: 80}}
+					case 4:
+						c.SecurityContext.SeccompProfile = &corev1.SeccompProfile{Type: "Unconfined"}
+					}
+					return c
+				}
+				p.Spec.InitContainers, p.Spec.Containers, p.Spec.EphemeralContainers = nil, nil, nil
+				for i := 0; i < width; i++ {
+					bad := 0
+					if i%5 == variant {
+						bad = 1 + (i/5+variant)%4
+					}
+					c := mk(fmt.Sprintf("w%02d", i), bad)
+					switch i % 4 {
+					case 0:
+						p.Spec.InitContainers = append(p.Spec.InitContainers, c)
+					case 3:
+						p.Spec.EphemeralContainers = append(p.Spec.EphemeralContainers, corev1.EphemeralContainer{EphemeralContainerCommon: corev1.EphemeralContainerCommon{Name: c.Name, Image: c.Image, SecurityContext: c.SecurityContext, Ports: c.Ports}})
+					default:
+						p.Spec.Containers = append(p.Spec.Containers, c)
+					}
+				}
+				if variant == 2 {
+					p.Spec.HostNetwork = true
+				}
+			})
+		}
+	}
 	// noise fields in isolation: must not change anything
 	add("noise.nodeSelector.windows", func(p *corev1.Pod) { p.Spec.NodeSelector = map[string]string{"kubernetes.io/os": "windows"} })
 	add("noise.all", func(p *corev1.Pod) { podNoise(NewRng(7), p) })
